@@ -247,7 +247,8 @@ pub fn eval(c: &Case) -> (Vec<Finding>, String, usize) {
             outcome = "cancelled".into();
             if is_make {
                 let ok_plain = o.after == o.before;
-                let ok_one = new.len() == 1 && old_intact && o.after.len() == o.before.len() + 1 && well_formed_new(new[0], &c.request).is_ok();
+                let single_slot = c.store.starts_with("option");
+                let ok_one = if single_slot { new.len() == 1 && o.after.len() == 1 && well_formed_new(new[0], &c.request).is_ok() } else { new.len() == 1 && old_intact && o.after.len() == o.before.len() + 1 && well_formed_new(new[0], &c.request).is_ok() };
                 if !(ok_plain || ok_one) {
                     bad("cancelled-registration-left-partial-state", format!("store {} → {} records, {} new, old intact {old_intact}, new record: {:?}", o.before.len(), o.after.len(), new.len(), new.first().map(|r| well_formed_new(r, &c.request))));
                 }
@@ -272,7 +273,10 @@ pub fn eval(c: &Case) -> (Vec<Finding>, String, usize) {
                     if saves_ok.is_empty() {
                         bad("success-without-accepted-save", "the response exists although no save_credential call returned Ok".into());
                     }
-                    if !(new.len() == 1 && new[0].id == *id && old_intact) {
+                    let single_slot = c.store.starts_with("option");
+                    if single_slot && !(new.len() == 1 && new[0].id == *id && o.after.len() == 1) {
+                        bad("success-but-slot-does-not-hold-the-new-credential", format!("the single-slot store holds {:?} after a successful registration of {}", o.after.iter().map(|r| hex(&r.id)).collect::<Vec<_>>(), hex(id)));
+                    } else if !single_slot && !(new.len() == 1 && new[0].id == *id && old_intact) {
                         bad("success-but-store-not-extended", format!("{} new records", new.len()));
                     } else if let Err(e) = well_formed_new(new[0], &c.request) {
                         bad("stored-record-malformed", e);
@@ -389,8 +393,9 @@ pub fn bases(tier: Tier) -> Vec<Case> {
         for store in ["memory+mutex", "option+rwlock"] {
             // the in-memory store answers id-less lookups with NoCredentials and the single slot
             // holds one credential: keep the requests that make sense for them
-            // (a registration into the single slot replaces its content by design, so only assertions)
-            if store == "option+rwlock" && !matches!(*request, "get:allow" | "get:prf") {
+            // (a registration into the occupied single slot replaces its content by design: afterwards
+            // the slot holds the new credential and nothing else)
+            if store == "option+rwlock" && !matches!(*request, "get:allow" | "get:prf" | "make:plain" | "make:counter" | "make:prf" | "make:client-credprops") {
                 continue;
             }
             if *request == "get:no-list" && store == "memory+mutex" {
@@ -423,7 +428,7 @@ pub fn run(ctx: &Ctx) -> Result<Run, String> {
     }
     let mut run = Run::from_stats(
         "fault_enumeration",
-        "requests {make through the client with credProps (and prf), get through the client with prf; make: plain, exclude-list hit, exclude-list miss, non-rk, PRF, counter, PRF evaluation that fails late (verification-gated secrets, unverified ceremony), unsupported algorithm, pin-auth, verification unconfigured; get: allow list, no list, PRF, counter-less, PRF on a credential without secret, PRF that fails late, stored counter at 2^32-1 (with and without a late failure), pin-auth, two listed credentials, two listed credentials with counters of which the first fails after its counter write (both list orders), silent (up = uv = false, nothing reported) with and without PRF} x store stack {contract store, behind Arc<Mutex>, behind Arc<RwLock>} x fault plans over the faultable store calls (every single call x 6 status codes, every subset of >= 2 calls with KeyStoreFull; thorough: subsets x 6 codes and single faults x all 256 bytes) x cancellation after every k < polls-to-completion (every store call and the user step suspend once); plus cancellation-only runs on Arc<Mutex<MemoryStore>> and Arc<RwLock<Option<Passkey>>>. Oracle: store snapshot before/after against a model that applies only the calls that returned Ok, call log, result. Every (request, store, plan, cancellation point) is a distinct case",
+        "requests {make through the client with credProps (and prf), get through the client with prf; make: plain, exclude-list hit, exclude-list miss, non-rk, PRF, counter, PRF evaluation that fails late (verification-gated secrets, unverified ceremony), unsupported algorithm, pin-auth, verification unconfigured; get: allow list, no list, PRF, counter-less, PRF on a credential without secret, PRF that fails late, stored counter at 2^32-1 (with and without a late failure), pin-auth, two listed credentials, two listed credentials with counters of which the first fails after its counter write (both list orders), silent (up = uv = false, nothing reported) with and without PRF} x store stack {contract store, behind Arc<Mutex>, behind Arc<RwLock>} x fault plans over the faultable store calls (every single call x 6 status codes, every subset of >= 2 calls with KeyStoreFull; thorough: subsets x 6 codes and single faults x all 256 bytes) x cancellation after every k < polls-to-completion (every store call and the user step suspend once); plus cancellation-only runs on Arc<Mutex<MemoryStore>> and on an occupied Arc<RwLock<Option<Passkey>>> (assertions, and registrations - plain, with counter, with PRF, through the client - after which the slot holds the new credential and nothing else). Oracle: store snapshot before/after against a model that applies only the calls that returned Ok, call log, result. Every (request, store, plan, cancellation point) is a distinct case",
         true,
         stats,
     );
